@@ -8,7 +8,7 @@ tie:     the native model (drv_c06) gets the serialisations s0..sn of the live s
 search:  on the real code: every loaded snapshot == the copy kept at save time, field-wise equal to the live
          serialisation through an independent Python re-parser; count / offsets / times; automatic cadence
 """
-import json, os, shutil, struct, sys, tempfile, time
+import json, os, shutil, struct, subprocess, sys, tempfile, time
 sys.path.insert(0, os.path.dirname(os.path.abspath(__file__)))
 from common import *
 import archive_common as ac
@@ -36,6 +36,7 @@ K_F1 = "F1:vanished-array-old-size"
 K_F11 = "F11:index-time-when-t-equals-t0"
 K_F19 = "F19:index-builder-trusts-field-size"
 K_F18 = "F18:particles-sign-of-zero"
+K_DUP = "cadence:lagging-next-duplicate"
 
 
 def vstr(v):
@@ -443,12 +444,12 @@ def run(c):
     exe = lean_exe("drv_c06")
     W = tempfile.mkdtemp(prefix="c06.", dir=os.environ.get("VERIF_TMP", "/tmp"))
     try:
-        _run(c, rebound, exe, W)
+        _run(c, rebound, exe, W, d)
     finally:
         shutil.rmtree(W, ignore_errors=True)
 
 
-def _run(c, rebound, exe, W):
+def _run(c, rebound, exe, W, d):
     v = probe_variant(c, rebound, os.path.join(W, "probe"))
     V = vstr(v)
     c.cov["source_variant"] = {"F1_fixed": v[0], "F11_fixed": v[1], "F19_fixed": v[3], "F18_particles_bitwise": v[4], "F5_varconfig_memberwise": v[5]}
@@ -472,7 +473,7 @@ def _run(c, rebound, exe, W):
                       "delta law stated for an exact comparison and, for any comparison, up to what it calls 'same'"]
     stats = dict(histories=0, appends=0, bytes_equal=0, index_equal=0, snapshots_decoded=0, child_crash=0, skipped_ops=0,
                  vanish_histories=0, appear_histories=0, shrink_zero=0, same_t0=0, auto_histories=0, auto_snapshots=0,
-                 lagging=0, live_value_checks=0, reduced_oracle_histories=0, auto_forward=0, auto_backward=0, auto_mixed=0, cadence_segments_model_equal=0, single_change_snapshots=0, reader_overflow=0, model_undefined=0, eq_checked=0, fieldwise_checked=0, link_true=0, merges=0, nocapture=0)
+                 lagging=0, pairwise_histories=0, live_value_checks=0, reduced_oracle_histories=0, auto_forward=0, auto_backward=0, auto_mixed=0, cadence_segments_model_equal=0, single_change_snapshots=0, reader_overflow=0, model_undefined=0, eq_checked=0, fieldwise_checked=0, link_true=0, merges=0, nocapture=0)
     integ_hist = {}
     hazards = {}
     dims = {}
@@ -726,6 +727,29 @@ def _run(c, rebound, exe, W):
                 D.add("cadence:mixed_manual")
         for d_ in D:
             dims[d_] = dims.get(d_, 0) + 1
+        if hist.get("row"):
+            row = dict(hist["row"])
+            # an event whose op was skipped at run time does not count as covered
+            evops = {"merge": "merge", "switch": "integrator", "reset": "reset", "n_to_zero": "remove_all", "add": "add", "remove": "remove",
+                     "lrescale": "lrescale", "sett_t0": "sett", "hash": "hash", "callback": "callback", "edit": "edit", "synchronize": "synchronize",
+                     "setting": "set"}
+            sk = {x[0] for x in meta["skipped"]}
+            for fk in ("eventA", "eventB"):
+                if evops.get(row[fk]) in sk:
+                    row[fk] = None
+            if row["roles"] == "variational" and "variation" in sk:
+                row["roles"] = None
+            if back.get("error") or reduced:
+                row["restore"] = None
+            if row.get("restore") == "c_api":
+                rr = subprocess.run([open_exe, os.path.join(wd, "arch.bin"), "-"], capture_output=True, text=True)
+                ls = rr.stdout.splitlines()
+                got = [(int(x.split("off=")[1].split()[0]), x.split("t=")[1].split()[0], "load=ok" in x) for x in ls if x.startswith("blob")]
+                want = [(bl["off"], (ac.rec_value(bl["recs"], ac.T_ID) or ac.rec_value(blobs[0]["recs"], ac.T_ID))[::-1].hex(), True) for bl in blobs]
+                if rr.returncode != 0 or got != want:
+                    V("c_api:index", "C API (create_from_file + create_from_simulationarchive) exposes %s, the file holds %s" % (got[:4], want[:4]), dict(history=hist, rc=rr.returncode))
+            tracker.add(row)
+            stats["pairwise_histories"] += 1
         key = (hist["structural"] or hist["auto"] or "free", hist["init"]["integrator"], n, tuple(sorted(van)), tuple(sorted(app)))
         c.count(key, nontrivial=n >= 2, n=n)
         kinds_hist[key[0]] = kinds_hist.get(key[0], 0) + 1
@@ -809,7 +833,16 @@ def _run(c, rebound, exe, W):
             dirs = tuple(sg["sign"] for sg in segs)
             stats["auto_backward" if all(d < 0 for d in dirs) and dirs else "auto_mixed" if len(set(dirs)) > 1 else "auto_forward"] += 1
             if lag:
+                # the prescribed time lags behind t (interval shorter than a step): which boundaries get a snapshot is
+                # not prescribed, but one state is never written twice
                 stats["lagging"] += 1
+                dup = sorted({g for g in got if got.count(g) > 1})
+                if dup:
+                    V(K_DUP, "automatic snapshots are written twice at the same (steps_done, t) %s: the prescribed time lags behind t (interval %s "
+                      "shorter than a step) and the heartbeat runs twice at the same time (end of one integrate(), start of the next)" % (
+                          dup[:4], [sg["val"] for sg in segs][:1]), rep)
+                else:
+                    stats["lagging_no_duplicate"] = stats.get("lagging_no_duplicate", 0) + 1
             elif got != exp:
                 V("cadence:%s" % hist["auto"], "automatic snapshots at (steps,t) %s, prescribed cadence gives %s (directions %s)" % (got[:8], exp[:8], dirs), rep)
             # tie: the Lean heartbeat model (same definitions as in the cadence theorems, on IEEE doubles) run over the
@@ -832,10 +865,23 @@ def _run(c, rebound, exe, W):
                 else:
                     stats["cadence_segments_model_equal"] += 1
 
+    # pairwise covering array over the explicit factors (fixed array; quick = seed-rotated slice, thorough = all rows)
+    prow_all = ac.covering_array(ac.C06_FACTORS, ac.c06_excluded, SplitMix(20260930), 120)
+    tracker = ac.PairTracker(ac.C06_FACTORS, ac.c06_excluded)
+    if c.thorough:
+        prows = list(prow_all)
+    else:
+        nsl = 84
+        off = ((c.seed - 1) * nsl) % len(prow_all)
+        prows = (prow_all + prow_all)[off:off + nsl]
+    c.cov["pairwise_rows"] = {"array": len(prow_all), "this_run": len(prows)}
+    open_exe = compile_harness(d, os.path.join(ROOT, "harness", "c07_open.c"), os.path.join(d, "c07_open"))
     while hi < nh and time.time() - t_start < budget:
         rng = c.rng.fork()
         r = hi % 12
-        if hi == 5:
+        if r in (2, 4, 8, 10, 11) and prows:
+            hist = ac.c06_history_from_row(rng, prows.pop(0))
+        elif hi == 5:
             hist = ac.gen_history(rng, 2500 if c.thorough else 700, structural="huge_n")
         elif r in (0, 3, 6, 9):
             hist = ac.gen_history(rng, rng.randint(2, maxapp), structural=STRUCT_KINDS[(hi // 3) % len(STRUCT_KINDS)], variant=hi // 3)
@@ -914,6 +960,10 @@ def _run(c, rebound, exe, W):
     if batch:
         flush(batch)
     c.cov.update(stats)
+    c.cov["pairs"] = tracker.report()
+    if c.thorough and c.cov["pairs"]["covered"] < c.cov["pairs"]["total"] and time.time() - t_start < budget:
+        c.broken.append("pairwise coverage of the history factors incomplete: %d of %d pairs; missing e.g. %s" % (
+            c.cov["pairs"]["covered"], c.cov["pairs"]["total"], c.cov["pairs"]["missing"][:5]))
     c.cov["dimensions"] = dict(sorted(dims.items()))
     missing = [d_ for d_ in REQUIRED_DIMS if not dims.get(d_)]
     c.cov["dimensions_missing"] = missing
